@@ -30,7 +30,7 @@ CASES = {"quick": 600, "thorough": 20000}
 MIN_CASES = {"quick": 150, "thorough": 1500}
 MIN_COUNTERS = {"quick": {"returned": 80}, "thorough": {"returned": 600}}
 REQUIRED_CLASSES = ["clash", "synthetic_mirror"]
-REQUIRED_COUNTERS = ["synthetic_extractions_judged", "returned", "iterations_judged_by_contract", "final_returns_judged", "cells_checked", "hard_modules_checked", "fixed_modules_checked", "staircase_hard_modules_checked", "synthetic_shared_cells:threshold_below_half", "synthetic_shared_cells:threshold_above_half"]
+REQUIRED_COUNTERS = ["synthetic_extractions_judged", "returned", "iterations_judged_by_contract", "final_returns_judged", "cells_checked", "hard_modules_checked", "fixed_modules_checked", "staircase_hard_modules_checked", "synthetic_targets_at_the_left_or_bottom_border", "synthetic_shared_cells:threshold_below_half", "synthetic_shared_cells:threshold_above_half"]
 SOFT_DEADLINE = {"quick": 240, "thorough": 3300}
 WATCHDOG = {"quick": 900, "thorough": 7200}
 
@@ -101,7 +101,7 @@ def gen_synthetic(rng):
     return {"cls": "synthetic_mirror", "share": rng.randrange(1000) if rng.random() < 0.6 else None, "share_ratio": rng.choice([0.5, 0.5, 0.4, 0.6]),
             "die": {"fam": "int", "W": W, "H": H, "regions": [], "struct": "empty", "fixed": {}, "netlist": {"Modules": mods, "Nets": [["H", "S"], ["S", "S2", 2]]}},
             "refine": ["grid", n, n], "mirror": [rng.random() < 0.5, rng.random() < 0.5] if flip else [False, False],
-            "target": [rng.choice([3, 4]) * u, rng.choice([3, 4]) * u], "threshold": rng.choice([0.9, 0.9, 0.45, 0.3, 0.6]), "alpha": 0.5, "max_iter": 1}
+            "target": [rng.choice([3, 4, 3, 4, 0.9, 1.2, 1.5]) * u, rng.choice([3, 4, 3, 4, 0.8, 1.0]) * u], "threshold": rng.choice([0.9, 0.9, 0.45, 0.3, 0.6]), "alpha": 0.5, "max_iter": 1}
 
 
 def check_synthetic(case, ctx):
@@ -147,6 +147,8 @@ def check_synthetic(case, ctx):
         ctx.violation("extract_raised", f"extract_solution raised {type(out).__name__}: {str(out)[:200]} :: {what}")
         return
     ctx.count("synthetic_extractions_judged")
+    if min(tx, ty) < 2 * case["die"]["W"] / case["refine"][1]:
+        ctx.count("synthetic_targets_at_the_left_or_bottom_border")      # some rectangle of the module crosses the border: still a rigid motion
     ctx.nontrivial(True)
     d2, alloc, disp = out
     snap = snapshot_result(d2, alloc)
